@@ -531,3 +531,32 @@ pub proof fn lemma_pre2(o: Seq<u8>, i: Seq<u8>, n: Seq<u8>, e: Seq<u8>)
 {
     assert((o + i) + n =~= o + (i + (n + e)));
 }
+
+// ---- executable content, tagged ------------------------------------------------------------------------------------
+pub open spec fn enc_ec(v: EcV) -> Seq<u8> {
+    enc_uint(ecv_type(v) as u64) + (match v {
+        EcV::If(x) => enc_if(x),
+        EcV::Expression(x) => enc_expression(x),
+        EcV::Script(x) => enc_script(x),
+        EcV::Log(x) => enc_log(x),
+        EcV::ForEach(x) => enc_for_each(x),
+        EcV::Send(x) => enc_send(x),
+        EcV::Raise(x) => enc_raise(x),
+        EcV::Cancel(x) => enc_cancel(x),
+        EcV::Assign(x) => enc_assign(x),
+    })
+}
+
+pub open spec fn ec_ok(v: EcV) -> bool {
+    match v {
+        EcV::If(x) => data_encodable(x.condition),
+        EcV::Expression(x) => data_encodable(x.content),
+        EcV::Script(x) => true,
+        EcV::Log(x) => s_ok(x.label) && data_encodable(x.expression),
+        EcV::ForEach(x) => s_ok(x.index) && s_ok(x.item) && data_encodable(x.array),
+        EcV::Send(x) => send_ok(x),
+        EcV::Raise(x) => s_ok(x.event),
+        EcV::Cancel(x) => s_ok(x.send_id) && data_encodable(x.send_id_expr),
+        EcV::Assign(x) => data_encodable(x.expr) && data_encodable(x.location),
+    }
+}
